@@ -1150,11 +1150,13 @@ def run(ctx, prop):
         do_batch(cases, 'round%d' % rounds)
         rounds += 1
 
+    slack = 20 if thorough else 7
     for sig in sorted(found)[:8]:
         d = found[sig]
-        if time.time() < stop + 20:
+        if time.time() < stop + slack:
             try:
-                small = shrink(ctx.driver, d['kind'], d['args'][0], d['args'][1], sig, stop + 20)
+                small = shrink(ctx.driver, d['kind'], d['args'][0], d['args'][1], sig,
+                               stop + slack)
                 if len(small) < len(d['args'][1]):
                     bad = check_one(ctx.driver, d['kind'], d['args'][0], small)
                     if bad and signature(d['kind'], small, bad[0], bad[1]) == sig:
